@@ -41,8 +41,38 @@ Record case := {
   c_folds : list fold;
   c_selections : list (list range);       (* innermost first *)
   c_completions : list (pos * list range);
-  c_edit_sets : list (list range)         (* edits for this file of each workspace edit *)
+  c_edit_sets : list (list range);        (* edits for this file of each workspace edit *)
+  c_sel_model : list (list (N * N) * list range);
+                                          (* selection chain correspondence: candidate offset ranges (token, then
+                                             ancestors) the handler feeds to push_growing_range, and the chain
+                                             the real server answered *)
+  c_ranges : list range                   (* EVERY range / position any result returned for this document *)
 }.
+
+(** the selection-range handler on the model: growing chain of the candidates, converted with [to_lsp_range] *)
+Fixpoint lsp_chain (t : text) (c : list (N * N)) : option (list range) :=
+  match c with
+  | [] => Some []
+  | (a, b) :: r =>
+      match to_lsp_range (parse t) t a b, lsp_chain t r with
+      | Val pq, Some l => Some (pq :: l)
+      | _, _ => None
+      end
+  end.
+
+Definition check_sel_model (c : case) : bool :=
+  forallb (fun '(cands, chain) =>
+             match lsp_chain (c_text c) (growing_chain cands) with
+             | Some m => list_eqb range_eqb m chain
+             | None => false
+             end) (c_sel_model c).
+
+(** generic part of the property: every returned range lies inside the document with start <= end — except the
+    named known class (open finding): the whole-document range of [get_document_lsp_range] *)
+Definition range_ok_or_known (t : text) (lens : list N) (r : range) : bool :=
+  range_in_doc lens r || range_eqb r (document_lsp_range t).
+Definition check_ranges (c : case) : bool :=
+  forallb (range_ok_or_known (c_text c) (line_lens (c_text c))) (c_ranges c).
 
 Definition check_tokens (c : case) : bool :=
   let lens := line_lens (c_text c) in
@@ -57,9 +87,11 @@ Definition check_completions (c : case) : bool :=
 Definition check_edits (c : case) : bool := forallb (edits_ok (line_lens (c_text c))) (c_edit_sets c).
 
 Definition check_case (c : case) : bool :=
-  check_tokens c && check_symbols c && check_folds c && check_selections c && check_completions c && check_edits c.
+  check_tokens c && check_symbols c && check_folds c && check_selections c && check_completions c && check_edits c
+  && check_sel_model c && check_ranges c.
 
-(** which parts fail: 1 tokens, 2 symbols, 3 folds, 4 selections, 5 completions, 6 edits *)
+(** which parts fail: 1 tokens, 2 symbols, 3 folds, 4 selections, 5 completions, 6 edits, 7 selection model, 8 ranges *)
 Definition failing_parts (c : case) : list N :=
   (if check_tokens c then [] else [1]) ++ (if check_symbols c then [] else [2]) ++ (if check_folds c then [] else [3])
-  ++ (if check_selections c then [] else [4]) ++ (if check_completions c then [] else [5]) ++ (if check_edits c then [] else [6]).
+  ++ (if check_selections c then [] else [4]) ++ (if check_completions c then [] else [5]) ++ (if check_edits c then [] else [6])
+  ++ (if check_sel_model c then [] else [7]) ++ (if check_ranges c then [] else [8]).
